@@ -5,7 +5,9 @@ Streams
           against their Lean mirrors on random paths (exact comparison).
   site  : generated projects (shape x options x static pages x how the project / output directory is
           reached: directly, through symbolic links, through `..` x doc comments of one / several
-          paragraphs, with `summary:` metadata, list-only; harness/c09_gen.py) -> real
+          paragraphs, with `summary:` metadata, list-only x user icon of any image type, MathJax configuration,
+          project-wide / per-page `copy_subdir` directories, plain files and relative links in static pages;
+          harness/c09_gen.py) -> real
           `ford` run in-process ->
           (a) correspondence: for every entity object of the project, `get_dir()` / `get_url()`
               equal the model's on the same (class, obj, ident, parent chain); the list pages
@@ -20,7 +22,12 @@ Streams
               decision of FortranBase.markdown to append the "Read more" link and its href, observed by a hook
               on the real method, equal the model's `readMore`/`readMoreHref` on the real strings; (micro
               stream) `normalise_path` and `relative_url` on a real directory tree with symbolic links equal
-              `normalisePath`/`relurl` with the tree's realpath handed over;
+              `normalisePath`/`relurl` with the tree's realpath handed over; (round 4) the <link>/<script>/<form> URLs
+              of the sampled pages and the asset files in the output equal what the asset model (`emitted` / `written` over
+              the tables regenerated from all templates and Documentation.writeout) gives for the run's real settings
+              dictionary; every file below page/ equals what the model of PagetreePage.writeout (`pageWrites`, regenerated
+              loop guards) writes for the real PageNode objects (location, stem, copy_subdir, files) and the page directory
+              on disk; the alias values handed to the real Markdown object equal the regenerated alias table;
           (b) property oracle (harness/c09_links.py, defined from the statement only): every
               href/src/xlink:href/action and search-index url is external or relative, its file
               exists under the output directory, its fragment is an id of that file; then the
@@ -197,6 +204,9 @@ def build_project(P, case_dir: Path):
         (root / "media" / "pic.png").write_bytes(b"\x89PNG\r\n")
     if R["css"]:
         (root / "user.css").write_text("body {}\n")
+    for rel, body in (R.get("root_files") or {}).items():
+        (root / rel).parent.mkdir(parents=True, exist_ok=True)
+        (root / rel).write_bytes(body)
     return pf, R
 
 
@@ -376,6 +386,11 @@ def classify(fail, ctx):
             return "C09-entity-str-without-relurl"
         if feat["constructor"] and fail.get("in_constructor_row"):
             return "C09-entity-str-without-relurl"
+    if missing and page.startswith("page/") and "/" in path and not path.startswith("../") \
+            and path.split("/", 1)[0] in ctx.get("abs_copy_items", {}).get(page, []):
+        # a relative link into a directory that the *project-wide* `copy_subdir` setting names, on a static page whose
+        # PageNode.copy_subdir (observed on the real object) holds that name as an absolute path: nothing is copied
+        return "C09-project-copy-subdir-never-copied"
     if fail.get("read_more_of") is not None and missing and path == "../None" and not frag:
         # the "Read more" link of the summary of an entity whose get_url() is None; the defect of the unchanged
         # code needs `summary:` metadata in the doc comment or a documentation without <p> paragraph
@@ -426,7 +441,8 @@ def file_link_targets(R):
     """Lower-cased base names of the source / extra files that some `[[name(file)]]` (or bare `[[name]]`)
     link in the project's texts (sources, extra files, static pages, front page) names."""
     names = {n.split("/")[-1].lower() for n in list(R["files"]) + list(R["extra"])}
-    texts = list(R["files"].values()) + list(R["extra"].values()) + list((R["pages"] or {}).values()) + [R["text"]]
+    texts = [t for t in list(R["files"].values()) + list(R["extra"].values()) + list((R["pages"] or {}).values()) + [R["text"]]
+             if isinstance(t, str)]
     found = set()
     for t in texts:
         for m in FILE_LINK_RE.finditer(t):
@@ -522,6 +538,46 @@ def page_links(path: Path):
     return p.out
 
 
+def observe_pages(doc, out: Path, site):
+    """For every PagetreePage of the run: location, stem, the real `copy_subdir` / `files` of its PageNode, and for each
+    `copy_subdir` item that is a directory next to the page source and whose target lies below the output directory the
+    files below it (that is what `copytree` has to reproduce).  Also: every file below <out>/page, and per page the
+    names of `copy_subdir` items that are *absolute* paths (the project setting after normalise_paths)."""
+    nodes, abs_items = [], {}
+    if doc is None:
+        return nodes, sorted(f for f in site.files if f.startswith("page/")), abs_items
+    page_dir = doc.data.get("page_dir")
+    out_dir = Path(doc.data["output_dir"])
+    for pg in doc.pagetree:
+        o = pg.obj
+        loc = str(o.location).replace(os.sep, "/")
+        loc = "" if loc == "." else loc
+        items = []
+        for it in o.copy_subdir:
+            its = str(it)
+            src = Path(page_dir) / o.location / it
+            tgt = Path(os.path.normpath(out_dir / "page" / o.location / it))
+            if os.path.isabs(its):
+                abs_items.setdefault("page/" + (loc + "/" if loc else "") + str(o.filename) + ".html", []).append(os.path.basename(its))
+            if out_dir not in tgt.parents or not src.is_dir() or os.path.isabs(its) or "/" in its.strip("/") or its in (".", ".."):
+                continue
+            items.append({"name": its, "files": sorted(str(f.relative_to(src)).replace(os.sep, "/") for f in src.rglob("*") if f.is_file())})
+        nodes.append({"loc": loc, "stem": str(o.filename), "copy_subdir": [str(x) for x in o.copy_subdir],
+                      "own": bool(getattr(o.meta, "copy_subdir", None)), "items": items, "files": [str(x) for x in o.files]})
+    return nodes, sorted(f for f in site.files if f.startswith("page/")), abs_items
+
+
+def observe_assets(doc):
+    """The option values the asset conditions talk about, read from the settings dictionary of the real run."""
+    if doc is None:
+        return None
+    d = doc.data
+    env = {"o": {k: int(bool(d.get(k))) for k in ("css", "mathjax_config", "search", "incl_src", "favicon", "media_dir")}, "d": {}}
+    if d.get("mathjax_config"):
+        env["d"]["basename(mathjax_config)"] = os.path.basename(str(d["mathjax_config"]))
+    return env
+
+
 def run_site(args):
     """Worker: generate, run FORD, observe.  Returns a JSON-able dict."""
     seed, k, workdir, keep = args
@@ -534,6 +590,8 @@ def run_site(args):
            "location": P.get("location", "plain"), "doc_style": {x: P["links"].get(x) for x in ("para_rate", "summary_rate", "list_rate")}}
     _LAST["md"] = []
     _LAST.pop("md_exc", None)
+    _LAST.pop("doc", None)
+    _LAST.pop("aliases", None)
     try:
         pf, R = build_project(P, root)
         res["used"] = R["used"]
@@ -593,11 +651,30 @@ def run_site(args):
             if sp in site.files:
                 nav[sp] = page_links(out / sp)
         res["nav"] = nav
+        # ---------- static pages: what PagetreePage.writeout had to copy (real PageNode attributes + the page directory on
+        #            disk) and what lies below <out>/page; assets: the settings dictionary the templates saw
+        doc = _LAST.get("doc")
+        res["page_nodes"], res["page_tree_files"], res["abs_copy_items"] = observe_pages(doc, out, site)
+        res["asset_env"] = observe_assets(doc)
+        res["aliases"] = _LAST.get("aliases")
+        res["asset_files"] = sorted(f for f in site.files if "/" not in f or f.split("/", 1)[0] in ("css", "js", "webfonts", "search"))
+        res["head_links"] = {sp: sorted({(lk["tag"], lk["attr"], resolve_rel(sp, lk["url"].strip())) for lk in site.links
+                                         if lk["page"] == sp and lk["tag"] in ("link", "script", "form") and lk["url"] is not None
+                                         and not c09_links.is_external(lk["url"].strip()) and not lk["url"].strip().startswith("/")})
+                             for sp in nav}
+        res["asset_hist"] = {"favicon " + (os.path.splitext(P["assets"]["favicon"])[1] if (P.get("assets") or {}).get("favicon") else "default"): 1,
+                             "mathjax_config=" + str(bool((P.get("assets") or {}).get("mathjax"))): 1,
+                             "pages with own copy_subdir": sum(1 for n in res["page_nodes"] if n["own"]),
+                             "non-index pages with own copy_subdir": sum(1 for n in res["page_nodes"] if n["own"] and n["stem"] != "index"),
+                             "pages under the project-wide copy_subdir": sum(1 for n in res["page_nodes"] if n["copy_subdir"] and not n["own"]),
+                             "copy_subdir directories next to their page": sum(len(n["items"]) for n in res["page_nodes"]),
+                             "plain files in page directories": sum(len(n["files"]) for n in res["page_nodes"])}
         # ---------- property oracle
         fails = site.failures()
         ctx = {"out": str(out), "cwd": cwd, "opts": P["opts"], "shape": shape or c09_gen.shape_counts(P),
                "feat": project_features(P), "hidden": hidden_names(P), "functions": function_names(P),
-               "file_link_targets": file_link_targets(R), "hidden_iface": hidden_interface_pages(P), "link_needs_url": _LAST.get("link_needs_url", False)}
+               "file_link_targets": file_link_targets(R), "hidden_iface": hidden_interface_pages(P), "link_needs_url": _LAST.get("link_needs_url", False),
+               "abs_copy_items": res["abs_copy_items"]}
         # ---------- what FortranBase.markdown did for every entity (summary rule, "Read more" link)
         md = _LAST.get("md", [])
         if _LAST.get("md_exc"):
@@ -711,6 +788,24 @@ def _install_hook():
         return orig(self, *a, **kw)
 
     fp.Project.correlate = correlate
+    import ford.output as fo
+    orig_doc = fo.Documentation.__init__
+
+    def doc_init(self, *a, **kw):
+        _LAST["doc"] = self
+        return orig_doc(self, *a, **kw)
+
+    fo.Documentation.__init__ = doc_init
+    import ford._markdown as fm
+    orig_mm = fm.MetaMarkdown.__init__
+
+    def mm_init(self, *a, **kw):
+        al, base = kw.get("aliases"), kw.get("base_url")
+        if al and base is not None and all(x in al for x in ("url", "media", "page")):
+            _LAST["aliases"] = {x: os.path.relpath(str(al[x]), str(base)) for x in ("url", "media", "page")}
+        return orig_mm(self, *a, **kw)
+
+    fm.MetaMarkdown.__init__ = mm_init
     fp.Project._c09_hooked = True
 
 
@@ -784,6 +879,57 @@ def compare_site(r, drv_answers, rep, stats):
                            f"{m['cls']} {m['name']} (case {k})",
                            {"stream": "site", "case": k, "entity": [m["cls"], m["name"]], "model": model, "impl": impl,
                             "has_url": m["has_url"], "explicit_summary": m["explicit"], "doc": m["doc"][:300]})
+    # --- static pages: the files below <out>/page are exactly what the model of PagetreePage.writeout writes for the real
+    #     PageNode objects (HTML file of every page, the files below the page's own `copy_subdir` directories, the plain
+    #     files of the page directory), under the regenerated guards of the two copy loops
+    if r.get("page_nodes") or r.get("page_tree_files"):
+        model_files = set()
+        for ans in drv_answers.get("pagecopy", []):
+            model_files.update(ans[1:])
+        impl_files = set(r.get("page_tree_files", []))
+        stats["page_copies"] += len(r["page_nodes"])
+        stats["page_copy_files"] += len(impl_files)
+        if model_files != impl_files:
+            stats["bad"] += 1
+            rep.tie_broken(f"correspondence site/pagecopy: below page/ the model expects {sorted(model_files - impl_files)[:6]} that are not written "
+                           f"and does not expect {sorted(impl_files - model_files)[:6]} (case {k})",
+                           {"stream": "site", "case": k, "seed": r.get("seed"), "model_only": sorted(model_files - impl_files)[:20],
+                            "impl_only": sorted(impl_files - model_files)[:20],
+                            "pages": [{x: n[x] for x in ("loc", "stem", "copy_subdir", "files")} for n in r["page_nodes"]][:12]})
+    # --- assets: the <link>/<script>/<form> URLs of the sampled pages are the asset links the model emits for the real
+    #     settings dictionary; the asset files in the output are the ones the model of Documentation.writeout writes
+    if r.get("asset_env") is not None and "assetwritten" in drv_answers:
+        for sp, got in r.get("head_links", {}).items():
+            exp = set()
+            for tpl in ["base.html"] + (["search.html"] if sp == "search.html" else []):
+                for e in drv_answers["assets:" + tpl][1:]:
+                    tag, attr, path = e.split("|", 2)
+                    if tag in ("link", "script", "form"):
+                        exp.add((tag, attr, path))
+            stats["asset_pages"] += 1
+            if exp != {tuple(x) for x in got}:
+                stats["bad"] += 1
+                rep.tie_broken(f"correspondence site/assets on {sp}: model {sorted(exp - {tuple(x) for x in got})} not rendered, "
+                               f"rendered {sorted({tuple(x) for x in got} - exp)} not in the model (case {k})",
+                               {"stream": "site", "case": k, "page": sp, "env": r["asset_env"], "model": sorted(exp), "impl": sorted(got)})
+        want = {f for f in drv_answers["assetwritten"][1:] if "{" not in f}
+        have = set(r.get("asset_files", []))
+        if r["opts"].get("externalize"):
+            have.discard("modules.json")   # `externalize: true`: ford.external_project.dump_modules, not part of the HTML output
+        stats["asset_files"] += len(have)
+        if want != have:
+            stats["bad"] += 1
+            rep.tie_broken(f"correspondence site/asset files: the model of Documentation.writeout writes {sorted(want - have)} that are not in the "
+                           f"output; the output has {sorted(have - want)} that the model does not write (case {k})",
+                           {"stream": "site", "case": k, "env": r["asset_env"], "model_only": sorted(want - have), "impl_only": sorted(have - want)})
+    # --- the values of the built-in aliases handed to the real Markdown object, relative to project_url
+    if r.get("aliases"):
+        impl = {a: ("" if v == "." else v) for a, v in r["aliases"].items()}
+        stats["aliases"] += 1
+        if impl != drv_answers.get("aliases"):
+            stats["bad"] += 1
+            rep.tie_broken(f"correspondence site/aliases: model {drv_answers.get('aliases')} vs implementation {impl} (case {k})",
+                           {"stream": "site", "case": k, "model": drv_answers.get("aliases"), "impl": impl})
     # --- members of the project lists versus the class the table names (annotation in Project.__init__; FORD's
     #     annotations are loose for lists such as `procedures`, so only what the theorem uses is compared):
     #     a list whose table class can be a parent, or has a static `visible` rule, holds exactly that class;
@@ -859,9 +1005,19 @@ def replay_witness(workdir: Path):
 
 # ------------------------------------------------------------------ main
 
+def _tick(label, t0=[None]):
+    """phase timing on stderr when C09_TIMING is set"""
+    if os.environ.get("C09_TIMING"):
+        import sys
+        now = time.time()
+        print(f"[c09 timing] {label}: +{now - (t0[0] or now):.1f}s", file=sys.stderr)
+        t0[0] = now
+
+
 def run(tier: str, seed: int, replay: str | None = None) -> int:
     from translate import c09 as tr
 
+    _tick("start")
     rep = Report(PROP, tier, seed)
     lean = lean_prove(PROP, translate=tr.translate, thorough=(tier == "thorough"))
     for b in lean.broken():
@@ -872,7 +1028,9 @@ def run(tier: str, seed: int, replay: str | None = None) -> int:
     drv = Driver()
     n_micro = 1500 if tier == "quick" else 20000
     n_sites = 640 if tier == "quick" else 6400
+    _tick("lean_prove + imports")
     ev_micro, bad_micro = micro_stream(drv, rng, n_micro, rep)
+    _tick("micro stream")
 
     # ---- variant: which navigation entries does the regenerated table fail?
     navcheck = drv.call("c09.navcheck")[1:]
@@ -896,6 +1054,28 @@ def run(tier: str, seed: int, replay: str | None = None) -> int:
                        f"directory whose path crosses a symbolic link are not made relative (tablesOk = false on the regenerated facts)")
     table_variants = {"normalise_path": rc[1], "relative_url_resolves_href": rc[2] == "1", "summary_rule": rc[3],
                       "read_more_link_guarded_by_url": rc[4] == "1"}
+    # ---- every `{{ project_url }}/<path>` URL of the templates names a file that Documentation.writeout writes
+    failing_assets = []
+    for e in drv.call("c09.assetcheck")[1:]:
+        tpl, tag, attr, path, ok = e.rsplit("|", 4)
+        if ok != "1":
+            failing_assets.append(f"{tpl}: <{tag} {attr}=\"{{{{ project_url }}}}/{path}\">")
+            rep.tie_broken(f"asset link {tpl}: <{tag} {attr}=\"{{{{ project_url }}}}/{path}\">: no copy / page write of Documentation.writeout "
+                           f"creates that path under a condition the link's condition implies (linkOk = false on the regenerated tables)")
+    # ---- the built-in aliases expand to the directories below which the user's trees are copied
+    model_aliases = {}
+    for e in drv.call("c09.aliases")[1:]:
+        a, path, ok = e.rsplit("|", 2)
+        model_aliases[a] = path
+        if ok != "1":
+            rep.tie_broken(f"alias |{a}| expands to `{{project_url}}/{path}`, which is not the destination of any copy of a user directory "
+                           f"in Documentation.writeout / the page directory (aliasOk = false on the regenerated tables)")
+    # ---- the copy loops of PagetreePage.writeout run for every page
+    pc = drv.call("c09.pagecheck")
+    if pc[2] != "1":
+        rep.tie_broken(f"PagetreePage.writeout: the `copy_subdir` loop runs `{pc[0]}`, the `files` loop `{pc[1]}`: a page's own copy_subdir "
+                       f"directories / the files of a page directory are not copied for every page that links them")
+    table_variants.update({"copy_subdir_loop_guard": pc[0], "page_files_loop_guard": pc[1], "asset_links_failing_check": failing_assets})
     labels = {"base.html": set(), "index.html": set()}
     table_mro, table_list_class, table_dir_parent, table_vis_classes = {}, {}, [], []
     try:
@@ -920,8 +1100,9 @@ def run(tier: str, seed: int, replay: str | None = None) -> int:
 
     hist = {"shape_kind": {}, "files": {}, "modules": {}, "programs": {}, "blockdata": {}, "procedures": {}, "types": {},
             "absinterfaces": {}, "namelists": {}, "submodules": {}, "options": {}, "links_by_page_kind": {}, "doc_link_targets": {},
-            "aborted_runs": {}, "location": {}, "doc_style": {}, "summaries": {}}
-    stats = {"geturl": 0, "nav_pages": 0, "bad": 0, "strlink": 0, "str_exc": 0, "list_members": 0, "readmore": 0}
+            "aborted_runs": {}, "location": {}, "doc_style": {}, "summaries": {}, "assets": {}}
+    stats = {"geturl": 0, "nav_pages": 0, "bad": 0, "strlink": 0, "str_exc": 0, "list_members": 0, "readmore": 0,
+             "page_copies": 0, "page_copy_files": 0, "asset_pages": 0, "asset_files": 0, "aliases": 0}
     n_links = n_internal = 0
     distinct = set()
     samples = []
@@ -938,6 +1119,7 @@ def run(tier: str, seed: int, replay: str | None = None) -> int:
         with ProcessPoolExecutor(max_workers=min(16, os.cpu_count() or 4), initializer=_worker_init) as ex:
             for r in ex.map(run_site, jobs, chunksize=2):
                 results.append(r)
+        _tick("site stream (ford runs)")
         # ---- model answers in one batch
         reqs, index = [], []
         for r in results:
@@ -960,14 +1142,29 @@ def run(tier: str, seed: int, replay: str | None = None) -> int:
             index.append((r["k"], "strlink", len(reqs), len(r["entities"])))
             for rec in r["entities"]:
                 reqs.append(["c09.strlink", rec["vis"], str(len(rec["chain"]))] + [x for node in rec["chain"] for x in node] + fs)
+            if r.get("asset_env") is not None:
+                afs = [f"o:{o}={v}" for o, v in r["asset_env"]["o"].items()] + [f"d:{k_}={v}" for k_, v in r["asset_env"]["d"].items()]
+                for tpl in ("base.html", "search.html"):
+                    index.append((r["k"], "assets:" + tpl, len(reqs), 1))
+                    reqs.append(["c09.assets", tpl] + afs)
+                index.append((r["k"], "assetwritten", len(reqs), 1))
+                reqs.append(["c09.assetwritten"] + afs)
+            index.append((r["k"], "pagecopy", len(reqs), len(r.get("page_nodes", []))))
+            for n in r.get("page_nodes", []):
+                q = ["c09.pagecopy", n["loc"] or ".", n["stem"], str(len(n["items"]))]
+                for it in n["items"]:
+                    q += [it["name"], str(len(it["files"]))] + it["files"]
+                q += [str(len(n["files"]))] + n["files"]
+                reqs.append(q)
             index.append((r["k"], "readmore", len(reqs), len(r.get("md", []))))
             for m in r.get("md", []):
                 reqs.append(["c09.readmore", "1" if m["has_url"] else "0", m["url"], "1" if m["explicit"] else "0",
                              m["summary_body"] if m["explicit"] else "", "1" if m["has_para"] else "0", m["para"], m["doc"]])
         answers = drv.batch(reqs)
+        _tick(f"model batch ({len(reqs)} requests)")
         by_site: dict[int, dict] = {}
         for k, name, start, n in index:
-            by_site.setdefault(k, {})[name] = answers[start] if name not in ("geturl", "strlink", "readmore") else answers[start:start + n]
+            by_site.setdefault(k, {})[name] = answers[start] if name not in ("geturl", "strlink", "readmore", "pagecopy") else answers[start:start + n]
         # ---- evaluate
         for r in results:
             k = r["k"]
@@ -982,6 +1179,8 @@ def run(tier: str, seed: int, replay: str | None = None) -> int:
                 bump("doc_style", f"{x}={v}")
             for x, v in (r.get("md_hist") or {}).items():
                 hist["summaries"][x] = hist["summaries"].get(x, 0) + v
+            for x, v in (r.get("asset_hist") or {}).items():
+                hist["assets"][x] = hist["assets"].get(x, 0) + v
             if r["opts"]["graph"]:
                 bump("options", f"graph_maxnodes={r['opts'].get('graph_maxnodes')}")
             if r.get("rc") != 0:
@@ -1010,7 +1209,7 @@ def run(tier: str, seed: int, replay: str | None = None) -> int:
             n_links += r["n_links"]
             n_internal += r["n_internal"]
             key = common.digest([sh, {o: r["opts"][o] for o in ("incl_src", "search", "graph", "proc_internals", "display", "sort", "source", "hide_undoc")},
-                                 r["has_pages"], r.get("location", "plain")])
+                                 r["has_pages"], r.get("location", "plain"), sorted(x for x, v in (r.get("asset_hist") or {}).items() if v)])
             distinct.add(key)
             if len(samples) < 3:
                 samples.append({"case": k, "shape": sh, "options": r["opts"], "pages": r["has_pages"], "links": r["n_links"],
@@ -1021,6 +1220,7 @@ def run(tier: str, seed: int, replay: str | None = None) -> int:
                 by_site[k]["list_class"] = table_list_class
                 by_site[k]["dir_parent"] = table_dir_parent
                 by_site[k]["vis_classes"] = table_vis_classes
+                by_site[k]["aliases"] = model_aliases
                 compare_site(r, by_site[k], rep, stats)
             # oracle
             if r["n_fails"]:
@@ -1038,6 +1238,7 @@ def run(tier: str, seed: int, replay: str | None = None) -> int:
                 cls = "C09-doc-link-in-entity-without-url" if False else None
                 rep.failing_input({"stream": "site", "seed": seed, "case": k, "page": leak,
                                    "why": "the absolute location of the output directory is written into this file"}, cls)
+        _tick("comparison + oracle evaluation")
         # ---- witness of the navigation finding on the real code
         wfails, werr = replay_witness(Path(d))
         if werr:
@@ -1053,15 +1254,20 @@ def run(tier: str, seed: int, replay: str | None = None) -> int:
             rep.failing_input({"stream": "witness", "page": "index.html", "url": wfails[0]["url"], "why": wfails[0]["why"],
                                "note": "all navigation entries pass entryOk but the witness project still has the dangling link"}, None)
     drv.close()
+    _tick("witness")
     n_ok = sum(1 for r in results if r.get("rc") == 0)
     rep.coverage.update(
-        evaluations=ev_micro + len(results) + stats["geturl"] + stats["strlink"] + stats["nav_pages"] + stats["readmore"],
+        evaluations=ev_micro + len(results) + stats["geturl"] + stats["strlink"] + stats["nav_pages"] + stats["readmore"]
+        + stats["page_copies"] + stats["asset_pages"],
         distinct_nontrivial=len(distinct),
         rule="a site case = generated project (shape x options x static pages x doc links) run through ford end-to-end; "
              "distinct by digest of (entity counts as FORD sees them, option combination, page tree present, how the project directory "
-             "is reached); all of them reach the mechanism",
+             "is reached, icon type / MathJax configuration / kinds of files next to the static pages); all of them reach the mechanism",
         samples=samples,
-        traces_validated_against_impl=ev_micro + stats["geturl"] + stats["strlink"] + stats["nav_pages"] + stats["readmore"] + n_ok,
+        traces_validated_against_impl=ev_micro + stats["geturl"] + stats["strlink"] + stats["nav_pages"] + stats["readmore"] + n_ok
+        + stats["page_copies"] + stats["asset_pages"],
+        static_pages_compared_copies=stats["page_copies"], files_below_page_compared=stats["page_copy_files"],
+        pages_compared_asset_links=stats["asset_pages"], asset_files_compared=stats["asset_files"],
         correspondence_disagreements=stats["bad"] + bad_micro,
         sites_generated=len(results), sites_built=n_ok,
         links_checked=n_links, internal_links_checked=n_internal, relocation_checks=reloc_checked,
@@ -1081,5 +1287,12 @@ def run(tier: str, seed: int, replay: str | None = None) -> int:
         "relurl model: the `replace` of relative_url is modelled as 'rewritten iff the resolved href equals the href as written' "
         "(substring coincidences are not modelled); its plain-string branch (`pages.url | relurl`) is covered by the oracle only; "
         "theorem hypothesis: what FORD writes below a canonical output directory is not reached through a symbolic link",
+        "asset model: the 'Source File' link of the info bar (`{{ base_url }}/src/{{ entity.filename }}`, a macro parameter, not "
+        "`project_url`) and links into media/ are judged by the oracle only: the tables know that files / a tree are copied there, "
+        "not the names of the user's files",
+        "static-page copies: the containment test and the try/except around copytree (C19, C17) are outside the model; only "
+        "copy_subdir items that are a directory next to the page source and whose target lies below the output directory are "
+        "handed to it (absolute items = the project-wide setting after normalise_paths are the open finding "
+        "C09-project-copy-subdir-never-copied)",
     ]
     return rep.finish(lean)
